@@ -12,7 +12,8 @@ Definition tPairs (t : Tree) : list (Z * Z) := map (fun p => (tZ (tnth p 0), tZ 
    [2; table; other table; mode]      align_to
    [3; table] transpose   [4; table] transpose twice   [5; table] copy
    [6; table; id_map pairs; axis; strict; inplace]     update_ids
-   [7; table; order; axis]            sort_order, then sort_order back to the original order *)
+   [7; table; order; axis]            sort_order, then sort_order back to the original order
+   [8; table; order; axis; sorted]    sort_order (a prior history), then sort *)
 Definition run (t : Tree) : Tree :=
   let tb := tTable (tnth t 1) in
   eResult eTable
@@ -24,5 +25,7 @@ Definition run (t : Tree) : Tree :=
      | 4%Z => ROk (transpose_t (transpose_t tb))
      | 5%Z => ROk (copy tb)
      | 6%Z => update_ids (tPairs (tnth t 2)) (tAxis (tnth t 3)) (tB (tnth t 4)) (tB (tnth t 5)) tb
-     | _ => let a := tAxis (tnth t 3) in rbind (sort_order (tLZ (tnth t 2)) a tb) (sort_order (ids a tb) a)
+     | 7%Z => let a := tAxis (tnth t 3) in rbind (sort_order (tLZ (tnth t 2)) a tb) (sort_order (ids a tb) a)
+     | _ => let a := tAxis (tnth t 3) in
+            rbind (sort_order (tLZ (tnth t 2)) a tb) (sort (fun _ => tLZ (tnth t 4)) a)
      end).
